@@ -102,10 +102,24 @@ def static_gate():
 
 # --------------------------------------------------------------------------
 # proof gate
+def coq_project_text():
+    """_CoqProject is generated from the tree: every .v under coq/, sorted"""
+    vs = []
+    for root, _, fs in os.walk(COQ):
+        for f in fs:
+            if f.endswith(".v") and not f.startswith("."):
+                vs.append(os.path.relpath(os.path.join(root, f), COQ))
+    return "-Q . Fibre\n" + "\n".join(sorted(vs)) + "\n"
+
+
 def coq_makefile():
     mk = os.path.join(COQ, "Makefile")
     proj = os.path.join(COQ, "_CoqProject")
-    if not os.path.exists(mk) or os.path.getmtime(mk) < os.path.getmtime(proj):
+    txt = coq_project_text()
+    old = open(proj).read() if os.path.exists(proj) else None
+    if old != txt or not os.path.exists(mk):
+        with open(proj, "w") as f:
+            f.write(txt)
         rc, o, e = sh("coq_makefile -f _CoqProject -o Makefile", cwd=COQ, timeout=120)
         if rc:
             raise RuntimeError("coq_makefile failed: " + e)
@@ -202,49 +216,58 @@ def newest_mtime(paths):
     return m
 
 
-def build_model():
-    """extract the models and compile the OCaml driver; returns path of modelrun"""
-    exe = os.path.join(OCAML_BUILD, "modelrun")
+def build_model(engine):
+    """extract the models of one engine (coq/Extract/Extract<Engine>.v -> model_<engine>.ml) and
+    compile its OCaml line driver (ocaml/eng_<engine>.ml); returns the path of modelrun_<engine>"""
+    exe = os.path.join(OCAML_BUILD, "modelrun_" + engine)
+    exv = os.path.join(COQ, "Extract", "Extract%s.v" % engine.capitalize())
     with Lock("ocaml"):
-        srcs = [OCAML_SRC] + [os.path.join(COQ, d) for d in ("Common", "Cache", "Chan", "Sync", "Ioc", "Log", "Extract")]
+        srcs = [os.path.join(OCAML_SRC, "conv.ml"), os.path.join(OCAML_SRC, "eng_%s.ml" % engine)] + \
+               [os.path.join(COQ, d) for d in ("Common", "Cache", "Chan", "Sync", "Ioc", "Log")] + [exv]
         if os.path.exists(exe) and os.path.getmtime(exe) >= newest_mtime(srcs):
             return exe
-        ok, blog = coq_build(["Extract/Extract.vo"])
+        ok, blog = coq_build(["Extract/Extract%s.vo" % engine.capitalize()])
         if not ok:
             raise RuntimeError("extraction build failed:\n" + blog[-3000:])
-        os.makedirs(OCAML_BUILD, exist_ok=True)
-        # Extract.vo is produced beside its source; the .ml lands in coqc's cwd, so re-run there
-        rc, o, e = sh(["coqc", "-Q", COQ, "Fibre", os.path.join(COQ, "Extract", "Extract.v")], cwd=OCAML_BUILD, timeout=900)
+        wd = os.path.join(OCAML_BUILD, engine)
+        os.makedirs(wd, exist_ok=True)
+        # Coq 8.16 writes the extracted .ml into coqc's cwd, so re-run the extraction file there
+        rc, o, e = sh(["coqc", "-Q", COQ, "Fibre", exv], cwd=wd, timeout=900)
         if rc:
             raise RuntimeError("extraction failed:\n" + (o + e)[-3000:])
-        mls = sorted(f for f in os.listdir(OCAML_SRC) if f.endswith(".ml"))
-        for f in mls:
-            with open(os.path.join(OCAML_SRC, f)) as a, open(os.path.join(OCAML_BUILD, f), "w") as b:
-                b.write(a.read())
-        order = ["conv.ml"] + [f for f in mls if f.startswith("eng_")] + ["modelrun.ml"]
-        rc, o, e = sh(["ocamlfind", "ocamlopt", "-w", "-a", "-package", "str", "-linkpkg", "model.mli", "model.ml"] + order + ["-o", "modelrun"],
-                      cwd=OCAML_BUILD, timeout=900)
+        conv = open(os.path.join(OCAML_SRC, "conv.ml")).read().replace("open MODEL", "open Model_" + engine)
+        with open(os.path.join(wd, "conv_%s.ml" % engine), "w") as f:
+            f.write(conv)
+        with open(os.path.join(OCAML_SRC, "eng_%s.ml" % engine)) as a, open(os.path.join(wd, "eng_%s.ml" % engine), "w") as b:
+            b.write(a.read())
+        rc, o, e = sh(["ocamlfind", "ocamlopt", "-w", "-a", "-package", "str", "-linkpkg",
+                       "model_%s.mli" % engine, "model_%s.ml" % engine, "conv_%s.ml" % engine, "eng_%s.ml" % engine,
+                       "-o", exe], cwd=wd, timeout=900)
         if rc:
             raise RuntimeError("ocaml build failed:\n" + (o + e)[-3000:])
         return exe
 
 
-def build_harness(crate="seqdrv", release=True, features=None):
-    """cargo build of a harness crate against /repo's current working tree, hooks on"""
+_built = {}
+
+
+def build_harness(crate="seqdrv", exe=None, release=True):
+    """cargo build of a harness crate against /repo's current working tree, hooks on;
+    returns (path of the binary `exe` (default: crate name), error log)"""
     d = os.path.join(HARNESS, crate)
     with Lock("cargo"):
-        lock_src = os.path.join(REPO, "Cargo.lock")
-        lock_dst = os.path.join(d, "Cargo.lock")
-        if not os.path.exists(lock_dst):
-            with open(lock_src) as a, open(lock_dst, "w") as b:
-                b.write(a.read())
-        cmd = ["cargo", "build", "--offline"] + (["--release"] if release else [])
-        if features:
-            cmd += ["--features", features]
-        rc, o, e = sh(cmd, cwd=d, timeout=3000)
-        if rc:
-            return None, (o + e)
-        return os.path.join(TARGET, "release" if release else "debug", crate), ""
+        if crate not in _built:
+            lock_src = os.path.join(REPO, "Cargo.lock")
+            lock_dst = os.path.join(d, "Cargo.lock")
+            if not os.path.exists(lock_dst):
+                with open(lock_src) as a, open(lock_dst, "w") as b:
+                    b.write(a.read())
+            cmd = ["cargo", "build", "--offline", "--bins"] + (["--release"] if release else [])
+            rc, o, e = sh(cmd, cwd=d, timeout=3000)
+            if rc:
+                return None, (o + e)
+            _built[crate] = True
+        return os.path.join(TARGET, "release" if release else "debug", exe or crate), ""
 
 
 def run_lines(exe, lines, timeout=1200, shards=8, env=None):
